@@ -181,9 +181,10 @@ sink_put_chunk(Sink *sink, const void *buf, size_t n)
         return -EINVAL;
     }
 
+    const unsigned char *data = buf;
     size_t rest = n;
     while (rest > 0) {
-        const ssize_t put = once_sink_put_chunk(sink, buf, rest);
+        const ssize_t put = once_sink_put_chunk(sink, data + (n - rest), rest);
         if (put == -EINTR || put == -EAGAIN) {
             continue;
         } else if (put < 0) {
